@@ -158,7 +158,9 @@ def decide(prop, tier, jobs, only, relock, seed, t0):
         # Verus gives no model: bounded witness search through the public entry point for failed
         # termination / panic obligations of parser functions (documentation of the violation only)
         for oid, r in results.items():
-            if r.get("engine") == "verus/z3" and r["status"] == "failed" and r.get("witness_hint") and not os.environ.get("VERIF_NO_WITNESS_SEARCH"):
+            # only for the parser units: a hang or panic is what their obligations exclude; for functional
+            # contracts (C16 printer) a crash search documents nothing
+            if r.get("engine") == "verus/z3" and r["status"] == "failed" and r.get("witness_hint") and not os.environ.get("VERIF_NO_WITNESS_SEARCH") and "/parse/" in (r["witness_hint"].get("source") or "") + "/":
                 if any(k in (r.get("note") or "") for k in ("decreases", "arithmetic", "precondition", "assertion", "unreachable", "index")):
                     log("[replay] searching a concrete witness for %s" % oid)
                     h = r.pop("witness_hint")
